@@ -60,13 +60,15 @@ func CheckC16(r *core.Run) {
 	type base struct {
 		commits int
 		txidHi  bool
+		ps      int // page size of the file (the second header lies at this offset)
 	}
-	bases := []base{{2, false}, {3, false}, {3, true}, {4, true}}
+	bases := []base{{2, false, 1024}, {3, false, 1024}, {3, true, 1024}, {4, true, 1024},
+		{3, false, 4096}, {2, false, 128 * 1024}}
 	if r.Thorough() {
-		bases = append(bases, base{5, false}, base{6, true})
+		bases = append(bases, base{5, false, 1024}, base{6, true, 1024}, base{3, true, 64 * 1024}, base{3, false, 256 * 1024})
 	}
 	for bi, b := range bases {
-		e := fenv.New(fmt.Sprintf("c16-%d", bi), txfile.Options{PageSize: 1024, MaxSize: 64 * 1024})
+		e := fenv.New(fmt.Sprintf("c16-%d", bi), txfile.Options{PageSize: uint32(b.ps), MaxSize: 64 * uint64(b.ps)})
 		e.Record = false
 		if err := e.Open(nil, 0); err != nil {
 			r.Break("c16: open: %v", err)
@@ -96,7 +98,7 @@ func CheckC16(r *core.Run) {
 		}
 		e.Close()
 		img := imgs[len(imgs)-1]
-		ps := 1024
+		ps := b.ps
 		// state labels of the two slots
 		h0, h1 := fenv.DecodeHeader(img[0:]), fenv.DecodeHeader(img[ps:])
 		if b.txidHi {
